@@ -15,6 +15,7 @@ def table (group : String) : Option (List (String × OpS)) :=
   | "lin" => some (ratOps opsLin)
   | "est" => some (ratOps opsEstRat ++ opsEstFloat)
   | "eig" => some (ratOps opsEigRat ++ opsEigFloat)
+  | "sim" => some opsSim
   | _ => none
 
 def outLineS (x : Except Err (List String)) : String :=
